@@ -2234,6 +2234,19 @@ def G_rules(ctx, rule="G"):
             why = "Topo::new over %s, stepped over %s" % (fmt_expr(e1, b), fmt_expr(e2, b))
         ctx.check(ok4, rule + "4", "topo|%s" % nm, m.where(b),
                   "GraphInfo::%s creates and steps Topo over %s" % (nm, "Reversed(graph)" if rev else "graph"), why)
+        # ... and every id that selects a returned node is one Topo produced: no alternative source of ids (a fast path that
+        # returns insertion order, a pre-sorted list) reaches the lookup
+        alt = []
+        for bx in m.reach_bodies(b.id):
+            for bbx, tx in bx.calls():
+                if callee_path(tx) in LOOKUP_FNS and len(tx["args"]) > 1:
+                    for q in fl.sources_operand(bx, tx["args"][1], (), "taint"):
+                        if q.kind == "alloc" and (q[4] in ALL_NODE_SOURCES or q[4].split("::")[-1] in (
+                                "node_indices", "node_references", "node_identifiers", "raw_nodes", "externals", "node_weights")) and q[4] != TOPO_NEW:
+                            alt.append(q[4].split("::")[-1])
+        ctx.check(not alt, rule + "4", "topo-only|%s" % nm, m.where(b),
+                  "the nodes GraphInfo::%s returns are looked up only with ids produced by Topo" % nm,
+                  "GraphInfo::%s can also return nodes in the order of %s: not a topological order for every graph" % (nm, sorted(set(alt))))
     # G5 PartialEq
     eqb = None
     for b in fb.prod_bodies():
